@@ -494,7 +494,7 @@ func columnWidth(r rune) int {
 }
 
 func (l *Lexer) skipSpaces() {
-	for l.pos < len(l.input) && l.input[l.pos] == ' ' {
+	for l.pos < len(l.input) && (l.input[l.pos] == ' ' || l.input[l.pos] == '\t') {
 		l.advance()
 	}
 }
